@@ -87,7 +87,8 @@ def h_wire(cfg):
 
         def source():
             for k in range(n):
-                yield env.timeout(sym_num('g%d' % k, sort, 0))
+                if not (cfg.get('burst') and cfg['burst'][k]):
+                    yield env.timeout(sym_num('g%d' % k, sort, 0))
                 pkt = mk_packet(Packet, env.now, sym_int('s%d' % k, 1), k)
                 entries.append((pkt, env.now))
                 wire.put(pkt)
@@ -168,6 +169,12 @@ def jobs(tier, seed):
             js.append({'harness': 'wire', 'cfg': {'n': n, 'sorts': sort, 'loss': loss},
                        'weight': 10 if loss == 'sym' else 3})
     js.append({'harness': 'wire', 'cfg': {'n': n + 1, 'sorts': 'int', 'loss': 'none'}, 'weight': 20})
+    # longer workloads: bursts entering the wire at one instant (reordering / loss-draw binding over several packets)
+    m = 6 if tier == 'quick' else 7
+    js.append({'harness': 'wire', 'weight': 30, 'opts': {'max_paths': 20000},
+               'cfg': {'n': m, 'sorts': 'int', 'loss': 'none', 'burst': [0, 1, 1, 0, 1, 1, 1][:m]}})
+    js.append({'harness': 'wire', 'weight': 30, 'opts': {'max_paths': 20000},
+               'cfg': {'n': m - 1, 'sorts': 'int', 'loss': 'sym', 'burst': [0, 1, 1, 0, 1, 1][:m - 1]}})
     for sort in ('int', 'real') if tier != 'quick' else ('int',):
         js.append({'harness': 'cable', 'cfg': {'n': 2, 'sorts': sort}, 'weight': 30})
     js.append({'harness': 'cable', 'cfg': {'n': 1 if tier == 'quick' else 2, 'sorts': 'int', 'loss': True}, 'weight': 30})
